@@ -318,6 +318,37 @@ theorem length_dedupRows_le_one {l : List Row} (h : ∀ x ∈ l, ∀ y ∈ l, x 
       simp [this]
     rw [this]; simp
 
+/-- the rows emitted by the dedup loop are pairwise distinct -/
+theorem nodup_dedupRows (l : List Row) : (dedupRows l).Nodup := by
+  induction l with
+  | nil => simp
+  | cons r l ih =>
+    rw [dedupRows_cons, List.nodup_cons]
+    refine ⟨?_, ih.filter _⟩
+    simp [List.mem_filter]
+
+/-- the dedup loop does nothing on a list of pairwise distinct rows -/
+theorem dedupRows_of_nodup {l : List Row} (h : l.Nodup) : dedupRows l = l := by
+  induction l with
+  | nil => simp
+  | cons r l ih =>
+    rw [List.nodup_cons] at h
+    rw [dedupRows_cons, ih h.2]
+    congr 1
+    rw [List.filter_eq_self]
+    intro x hx
+    have : x ≠ r := fun e => h.1 (e ▸ hx)
+    simp [this]
+
+/-- slices of a row list are sublists -/
+theorem slice_rows_sublist (a : Int) (b : OptInt) (X : RS) : (slice a b X).rows.Sublist X.rows := by
+  unfold slice
+  split
+  · exact List.Sublist.refl _
+  · cases b with
+    | none => exact List.drop_sublist _ _
+    | some v => exact (List.drop_sublist _ _).trans (List.take_sublist _ _)
+
 /-! ## stable sort by an integer key (generic) -/
 
 section StableSort
